@@ -16,6 +16,7 @@ EmitK(fam, top, watched, kids) ==
   PrintT(ToJson([k |-> "build", fam |-> fam, top |-> top.n, ops |-> top.ops,
                  observe |-> Watch(watched) \o Obs4(top.n),
                  kids |-> kids,
+                 specwalk |-> WalkMsg(Enc(top.tree)),       \* design-level check: the two halves of OFWire.tla (Enc and Walk) agree on this message
                  trees |-> TreeMap(<<top>> \o watched)]))
 Emit(fam, top, watched) == EmitK(fam, top, watched, [i \in DOMAIN watched |-> watched[i].n])
 Sel(k) == k % Stride = Phase
